@@ -469,7 +469,20 @@ class Gen:
         pad = "\t" * ind
         out = []
         ms = self.vars_of(env, "map[uint64]uint64")
-        k = r.randrange(5)
+        k = r.randrange(6)
+        if k == 5:
+            # a DEFINED map type whose key and value types differ, allocated with make(Name); absent keys read as the value type's zero
+            accs = [v for v in self.visible(env) if v.assignable and v.ty == "uint64"]
+            if accs:
+                nm = "nm%d" % self.fresh()
+                a = accs[0].name
+                self.named_map_used = True
+                out.append("%s%s := make(MB)" % (pad, nm))
+                # (goose rejects an index UPDATE on a defined map type; reads, len and make are in the subset)
+                out.append("%sif %s[%s %% 4] {\n%s\t%s = %s + 1\n%s}" % (pad, nm, self.expr(env, "uint64", 1), pad, a, a, pad))
+                out.append("%sif !%s[%s %% 4] {\n%s\t%s = %s + 2\n%s}" % (pad, nm, self.expr(env, "uint64", 1), pad, a, a, pad))
+                out.append("%s%s = %s + uint64(len(%s))" % (pad, a, a, nm))
+            return out, env
         if not ms or k == 0:
             name = "m%d" % self.fresh()
             out.append("%s%s := make(map[uint64]uint64)" % (pad, name))
@@ -686,7 +699,8 @@ class Gen:
             elif t == "bool":
                 e = "((acc %% 3 == 1) != %s)" % e
             elif t == "string":
-                e = "(%s + machine.UInt64ToString(acc %% 1000))" % e
+                # the whole 64-bit range (acc is usually far above 2^63 after the wrapping arithmetic), or a small number
+                e = ("(%s + machine.UInt64ToString(acc))" if self.r.random() < 0.5 else "(%s + machine.UInt64ToString(acc %% 1000))") % e
             elif t == "[]uint64":
                 e = "append(%s, acc)" % e
             elif t == "[]byte":
@@ -816,6 +830,8 @@ def package(seed, nfuncs=12, features=None, nvec=3, expr_depth=2):
         decls.append("type S0 struct {\n\ta uint64\n\tb bool\n}\n")
         if "methods" in g.f:
             decls += METHODS
+    if getattr(g, "named_map_used", False):
+        decls.append("type MB map[uint64]bool\n")
     rnd.shuffle(decls)          # declaration order differs from definition order
     body = "\n".join(decls)
     src = ["package p", ""]
